@@ -124,6 +124,10 @@ func BuildUnit(P *Program, key string, profile string, prop string) (*Unit, erro
 	if wc == nil {
 		wc = fc.Mod(profile)
 	}
+	if fc.TrustedFrame {
+		wc = nil
+		e.trusted["frame of "+key+" (its modifies clause) is assumed, not checked"] = true
+	}
 	if wc != nil {
 		e.wfree = true
 		e.writeProps = wc.Props
@@ -219,7 +223,7 @@ func BuildUnit(P *Program, key string, profile string, prop string) (*Unit, erro
 			}
 		}
 		// frame
-		if mc := fc.Mod(profile); mc != nil {
+		if mc := fc.Mod(profile); mc != nil && !fc.TrustedFrame {
 			if unk, why := e.hasUnknownFrame(exit, map[*baseNode]bool{}); unk {
 				e.oblig("frame", "frame:unknown-effects", nil, exitReach, "false", "", "the function claims a frame but performs an effect with unknown frame: "+why)
 			}
